@@ -87,3 +87,37 @@ Proof. destruct n as [i c s p [l|] [cd|]]; repeat split; reflexivity. Qed.
 
 Lemma adm_spec_single A d n : In n (gnodes (adm_spec A d)) -> single_node n.
 Proof. intros H. apply adm_nodes in H. destruct H as [m [_ [_ ->]]]. apply restrict_single. Qed.
+
+(* ------------------------------------------------------------------ re-keying again *)
+Lemma rekeyed_rekeyed g1 g2 n : rekeyed g2 (rekeyed g1 n) = rekeyed g2 n.
+Proof.
+  destruct n as [i c s p l cd]. unfold rekeyed, set_cdel, set_ldel, rekey_map. simpl.
+  f_equal; [destruct l as [m|] | destruct cd as [m|]]; simpl; try reflexivity;
+    rewrite map_map; reflexivity.
+Qed.
+
+(* only the last key counts; in particular re-keying twice to the same id is re-keying once *)
+Lemma rewrite_twice g g1 g2 :
+  NoDup (node_ids g) -> gnodes g <> [] -> (forall n, In n (gnodes g) -> single_node n) ->
+  rewrite_delegations (fst (rewrite_delegations g g1)) g2 = rewrite_delegations g g2.
+Proof.
+  intros Hn Hne Hs. rewrite (rewrite_delegations_ok g g1 Hn Hne Hs). simpl.
+  rewrite (rewrite_delegations_ok g g2 Hn Hne Hs).
+  rewrite rewrite_delegations_ok.
+  - simpl. rewrite map_map. f_equal. f_equal. apply map_ext. intros n. apply rekeyed_rekeyed.
+  - unfold node_ids. simpl. rewrite map_map. simpl. exact Hn.
+  - simpl. destruct (gnodes g); [contradiction | discriminate].
+  - simpl. intros n Hi. apply in_map_iff in Hi. destruct Hi as [m [<- Hm]]. apply rekeyed_single. apply Hs. exact Hm.
+Qed.
+
+(* a delegation property whose (only) key already is the target key is left as it is *)
+Lemma rekeyed_same_key d n :
+  (forall d' x, In (d', x) (entries (ldel n)) \/ In (d', x) (entries (cdel n)) -> d' = d) -> rekeyed d n = n.
+Proof.
+  intros H. destruct n as [i c s p l cd]. unfold rekeyed, set_cdel, set_ldel, rekey_map. simpl in *.
+  assert (M : forall m : dmap, (forall d' x, In (d', x) m -> d' = d) -> map (fun p => (d, snd p)) m = m).
+  { induction m as [|[k x] m IH]; simpl; intros Hm; [reflexivity|]. rewrite (Hm k x (or_introl eq_refl)).
+    f_equal. apply IH. intros d' y Hy. apply (Hm d' y). right. exact Hy. }
+  f_equal; [destruct l as [m|] | destruct cd as [m|]]; simpl; try reflexivity; f_equal; apply M; intros d' x Hi;
+    apply (H d' x); auto.
+Qed.
